@@ -517,7 +517,7 @@ fn pub_spec(v5: bool) -> impl Strategy<Value = PubSpec> {
         })
 }
 
-fn case_strategy(role: Role) -> impl Strategy<Value = Case> {
+fn case_strategy(role: Role) -> BoxedStrategy<Case> {
     (
         any::<bool>(),
         prop::sample::select(vec![0u32, 4, 64, 32 * 1024]),
@@ -541,23 +541,19 @@ fn case_strategy(role: Role) -> impl Strategy<Value = Case> {
             }
             Case { role, router, min_chunk, pubs, extras, keys, settle_between }
         })
+        .boxed()
 }
 
 pub fn check_case(c: &Case) -> Result<CaseInfo, Failure> {
-    let c2 = c.clone();
-    run_case_sync(c2)
-}
-
-fn run_case_sync(c: Case) -> Result<CaseInfo, Failure> {
-    crate::bed::run_case("C03", run_case(c))
+    run_isolated("C03", c.clone(), &run_case)
 }
 
 pub fn run(ctx: &Ctx, started: Instant) -> i32 {
-    let per_role = ctx.tier.pick(1_500u32, 40_000);
+    let per_role = ctx.tier.pick(6_000u32, 100_000);
     let stats = par_shards(WORKERS, |shard| {
         let mut st = Stats::default();
         let role = Role::ALL[shard % 4];
-        run_proptest(ctx.sub_seed("hist", shard), per_role, &case_strategy(role), &mut st, |c| json!({"case": c}), check_case);
+        run_proptest_bed("C03", ctx.sub_seed("hist", shard), per_role, &case_strategy(role), &mut st, |c| json!({"case": c}), run_case);
         st
     });
     let report = Report {
